@@ -1,7 +1,19 @@
 import json, os
 import vlib
 
+KEY_SETMARK = "setmark-child-no-end-rules"
+
+
+def classify(line):
+    # known finding: probes of a set-endpoint-mark case that are in neither endpoint set but match the prefix of a
+    # bin with a child chain; the driver puts exactly those probes into a case of their own and tags it.
+    if "setmark:unknown-probe-captured-by-child" in line.get("tags", []):
+        return KEY_SETMARK
+    return None
+
+
 CFG = dict(
+    classify=classify,
     imports=["From Verif.C10 Require Import Nf Model Spec MapsModel MapsSpec.", "Open Scope N_scope."],
     checker="check_any",
     n=dict(quick=400, thorough=13000),
